@@ -19,6 +19,12 @@ def run(ctx):
         r0.undecided('witness-branch', b.fi.site, 'no `if sigversion == SIGVERSION_WITNESS_V0:` branch found in SignatureHash')
         return
     r0.ok('witness-branch', common.site_of(b.fi, b.branch), 'branch found')
+    # the two digest forms are told apart by these two values, and the default is the legacy form
+    sb = repo.module_value(b.fi.module, 'SIGVERSION_BASE')
+    sw = repo.module_value(b.fi.module, 'SIGVERSION_WITNESS_V0')
+    r0.check(sb == 0 and sw == 1, 'sigversion-values', b.fi.module.relpath + ':0', 'BASE = 0, WITNESS_V0 = 1',
+             'SIGVERSION_BASE = %r, SIGVERSION_WITNESS_V0 = %r (0 and 1): with equal values the default call SignatureHash(script, tx, i, hashtype) takes the witness branch; other values change what callers that pass 0 / 1 get' % (sb, sw), sure=True)
+    common.rule_defaults(r0, repo, [('bitcoin.core.script.SignatureHash', 'sigversion', 0, 'the four-argument call computes the witness digest (or fails on the missing amount) instead of the legacy one')])
     rule_L1(ctx, repo, eng, b)
     rule_D1(ctx, repo, b)
     rule_X1(ctx, repo, b)
